@@ -30,12 +30,19 @@ import (
 	sh "verifharness/internal/sesshist"
 )
 
-const (
-	maxExecMs = 80
-	stallMs   = 200
-)
+// max_sql_execute_time and the stall that exceeds it. Quick: small, so that a case is cheap. Thorough runs 16
+// processes in parallel: there the limit must stay well above scheduling noise, because a statement that times out
+// only because the machine is slow leaves its connection in use by an abandoned goroutine of the proxy (see the
+// scheduling assumption in checks.d/C19.json) and everything after that is nondeterministic.
+func execLimits() (maxExecMs, stallMs int) {
+	if pbt.Tier() == "thorough" {
+		return 300, 650
+	}
+	return 120, 260
+}
 
 func profile(max int) sh.Profile {
+	maxExecMs, stallMs := execLimits()
 	return sh.Profile{MinCmds: 8, MaxCmds: max, KeepSession: 2, Faults: true, RefuseFaults: true, Disconnects: true, HardDrops: true, Ping: true,
 		MaxExecMs: maxExecMs, StallMs: stallMs}
 }
@@ -268,6 +275,11 @@ func analyse(c sh.Case, tr *sh.Trace) *analysis {
 				}
 			}
 		}
+		if st.Err != nil && strings.Contains(st.Err.Message, "execution timed out") && !(st.FaultFired && st.Cmd.F.Action == sh.ActStall) && an.violation == "" && an.skip == "" {
+			// only injected stalls are meant to exceed max_sql_execute_time; when the machine is so slow that an ordinary
+			// statement does, the proxy's abandoned reader makes everything after it nondeterministic
+			an.skip = "a statement exceeded max_sql_execute_time without an injected stall (machine too slow): inconclusive"
+		}
 		if st.IOErr != "" {
 			if strings.Contains(st.IOErr, "timeout") && an.violation == "" && an.skip == "" {
 				an.skip = fmt.Sprintf("the proxy did not answer step %d within the client deadline", st.Idx)
@@ -411,10 +423,11 @@ type prediction struct {
 	over      map[string]bool // keep-session: master pools that may be over-returned
 	f3, f4    bool
 	f5        bool
+	orphan    map[sh.ConnKey]bool // sockets opened by DirectConnection's reconnect after "broken pipe" (F6)
 }
 
 func predict(c sh.Case, tr *sh.Trace) *prediction {
-	p := &prediction{leak: map[string]int64{}, offAt: map[int]map[string]int64{}, abandoned: map[sh.ConnKey]bool{}, over: map[string]bool{}}
+	p := &prediction{leak: map[string]int64{}, offAt: map[int]map[string]int64{}, abandoned: map[sh.ConnKey]bool{}, over: map[string]bool{}, orphan: map[sh.ConnKey]bool{}}
 	nsess := len(c.RWSplit)
 	type ps struct {
 		txOpen, ac0 bool
@@ -516,6 +529,7 @@ func predict(c sh.Case, tr *sh.Trace) *prediction {
 				if tc := m.conns[nk.Server[:i]]; tc != nil && tc.conn != nk && nk.ID > tc.conn.ID {
 					tc.closed = true
 					tc.conn = nk // the pooled connection now sits on the new socket
+					p.orphan[nk] = true
 				}
 			}
 		}
@@ -652,6 +666,21 @@ func classify(c sh.Case, tr *sh.Trace, an *analysis) string {
 		return ""
 	}
 	p := predict(c, tr)
+	// F6: the ledger is fine, but a socket that DirectConnection.writePacket opened when it reconnected after "broken
+	// pipe" is still open (inside a transaction / autocommit off): the connection object stays flagged closed, so
+	// Recycle gives the slot back without ever closing that socket.
+	if an.where == "final-open" && len(an.dirty) > 0 {
+		all := true
+		for _, d := range an.dirty {
+			if !p.orphan[d.Key] {
+				all = false
+			}
+		}
+		if all {
+			return "C19-F6"
+		}
+		return ""
+	}
 	if c.KeepSession {
 		if !p.f3 && !p.f4 && !p.f5 {
 			return ""
@@ -751,7 +780,7 @@ type acqCmd struct {
 // sharded statements touching 2-3 slices, inside and outside transactions and with keep-session on or off, half of
 // them while the servers of one of the touched slices refuse new connections.
 func genAcquire(t *rapid.T) sh.Case {
-	c := sh.Case{MaxExecMs: maxExecMs, StallMs: stallMs}
+	c := sh.Case{} // no execution time limit: nothing stalls here, and a spurious timeout would only add noise
 	c.Slices = rapid.SampledFrom([]int{2, 3, 3}).Draw(t, "slices")
 	c.Replicas = rapid.SampledFrom([]int{0, 0, 1}).Draw(t, "replicas")
 	c.Cap = rapid.IntRange(1, 2).Draw(t, "cap")
@@ -829,7 +858,7 @@ func TestC19Acquire(t *testing.T) {
 		func(c sh.Case, rec *pbt.Recorder) pbt.Outcome { o := checkAcquire(c); reportTiming(rec); return o })
 }
 
-const rule = "C18's command machine (1-3 sessions, 1-3 slices, keep-session on in a third) plus disconnects (COM_QUIT, FIN, FIN with a statement in flight, RST) and a fault per command with probability 0.3: SQL error / socket closed before or after the reply / stall past max_sql_execute_time (80 ms) on the tagged statement, BEGIN, COMMIT, ROLLBACK, SET autocommit, the session-variable SET, COM_INIT_DB or a keep-session ping, on a slice the command touches; non-trivial = a fault fired inside an open transaction that holds another slice (or two), or during a keep-session statement"
+const rule = "C18's command machine (1-3 sessions, 1-3 slices, keep-session on in a third) plus disconnects (COM_QUIT, FIN, FIN with a statement in flight, RST) and a fault per command with probability 0.3: SQL error / socket closed before or after the reply / stall past max_sql_execute_time (120 ms quick, 300 ms thorough) on the tagged statement, BEGIN, COMMIT, ROLLBACK, SET autocommit, the session-variable SET, COM_INIT_DB or a keep-session ping, on a slice the command touches; non-trivial = a fault fired inside an open transaction that holds another slice (or two), or during a keep-session statement"
 
 func TestC19Ledger(t *testing.T) {
 	if _, err := proxyfix.Shared(); err != nil {
